@@ -383,7 +383,34 @@ def edits_consumed(db, ctx):
     from .C08 import _EDIT_ROLES
     R_ = param_roles(f, _EDIT_ROLES)
     if "edits" not in R_:
-        raise AnchorMissing("resolve_edits: the &mut Vec<ReplaceOp> parameter")
+        # the edits are read by reference: emptying the list is then the CALLER's job, on every path that leaves it after the call
+        cm = db.one("commit", "InputBuffer")
+        top = cm.hir.get("stmts", []) + ([{"k": "Semi", "e": cm.hir["expr"]}] if cm.hir.get("expr") else [])
+        i_call = i_kill = None
+        for i, st in enumerate(top):
+            for x, _ in walk(st):
+                if i_call is None and is_call(x) and path_ends(callee(x) or "", "resolve_edits"):
+                    i_call = i
+            e_ = peel(st.get("e") or {}) if st.get("k") == "Semi" else {}
+            if (i_kill is None and e_.get("k") == "MethodCall" and e_.get("method") in ("clear", "drain", "truncate") and "replaces" in render(e_["recv"])):
+                i_kill = i      # a statement of the function's own block: executed whenever control gets there
+        if i_call is None:
+            raise AnchorMissing("resolve_edits: the &mut Vec<ReplaceOp> parameter, or a call of resolve_edits in InputBuffer::commit")
+        leaves = []
+        for st in top[i_call:(i_kill if i_kill is not None and i_kill >= i_call else len(top))]:
+            for x, _ in walk(st):
+                if x.get("k") == "Ret" or (x.get("k") == "Match" and "Try" in str(x.get("src"))):
+                    leaves.append(render(x)[:70])
+        ok = i_kill is not None and (i_kill < i_call or not leaves)
+        ctx.ob("resolve_edits|edits-emptied-on-every-exit", ok,
+               "resolve_edits reads the pending edits by reference, so InputBuffer::commit must empty `replaces` on every path: clear as a statement of the function body %s; "
+               "exits of commit between the call and the clear: %s%s" % ("found" if i_kill is not None else "NOT found", leaves,
+               "" if ok else " — after an input rejected as too long the next analysis on the same tokenizer applies the rejected text's edits "
+                             "(out-of-range offsets over the new text)"), fn=cm)
+        rb = db.one("rollback", "InputBuffer")
+        ok2 = any(c.get("k") == "MethodCall" and c.get("method") in ("clear", "drain", "truncate") and "replaces" in render(c["recv"]) for c, _ in walk(rb.hir))
+        ctx.ob("rollback|clears", ok2, "InputBuffer::rollback discards the pending edits: %s" % ok2, fn=rb)
+        return
     drains = itx.get("k") == "MethodCall" and itx.get("method") == "drain" and is_local(itx["recv"], R_["edits"]) and "RangeFull" in render(itx["args"][0])
     rets = [x for x, _ in walk(body) if x.get("k") == "Ret"]
     if drains:
@@ -417,3 +444,53 @@ def mode_switch(db, ctx):
     from . import C09
     C09.pairing(db, ctx)
     ctx.floor(4)
+
+
+def _widens(e, is_old):
+    """e evaluates to a superset of the old subset: old | x, (old | x).normalize(), old.union(x) — normalize() only adds flags"""
+    e = peel(e)
+    if not isinstance(e, dict):
+        return False
+    if is_old(e):
+        return True
+    if e.get("k") == "Path" and "let_init" in e:
+        return _widens(e["let_init"], is_old)
+    if e.get("k") == "MethodCall" and e.get("method") == "normalize":
+        return _widens(e.get("recv"), is_old)
+    if e.get("k") == "Binary" and e.get("op") == "BitOr":
+        return _widens(e["l"], is_old) or _widens(e["r"], is_old)
+    if e.get("k") == "MethodCall" and e.get("method") == "union":
+        return _widens(e.get("recv"), is_old) or any(_widens(a, is_old) for a in e.get("args", []))
+    if e.get("k") == "Block" and not e.get("stmts") and e.get("expr"):
+        return _widens(e["expr"], is_old)
+    return False
+
+
+@rule("C10.subset-widened", "a mode switch never takes a field away from the installed subset: every write of the tokenizer's subset in set_mode is a union with "
+                            "its previous value (the split flag of the mode being left cannot be told from one the caller requested)")
+def subset_widened(db, ctx):
+    f = db.one("set_mode", "StatefulTokenizer")
+    v = db.view(f, depth=2)
+
+    def is_old(e):
+        e = peel(e)
+        return isinstance(e, dict) and e.get("k") == "Field" and e.get("name") == "subset" and "StatefulTokenizer" in (e.get("adt") or "")
+    n = 0
+    for x, ps in walk(v.hir):
+        k = x.get("k")
+        if k == "AssignOp" and is_old(x["l"]):
+            n += 1
+            ctx.ob("set_mode|write#%d" % n, x.get("op") == "BitOr", "set_mode: `%s` (%s=) — only a union may be applied to the installed subset" % (render(x)[:90], x.get("op")), fn=f, site=x.get("sp"))
+        elif k == "Assign" and is_old(x["l"]):
+            n += 1
+            ok = _widens(x["r"], is_old)
+            ctx.ob("set_mode|write#%d" % n, ok, "set_mode: `%s` — the new value %s a union with the previous subset" % (render(x)[:110], "is" if ok else "is NOT"), fn=f, site=x.get("sp"))
+        elif k == "MethodCall" and is_old(x.get("recv")) and x.get("method") in ("remove", "toggle", "set", "retain", "clear", "difference_with"):
+            n += 1
+            ctx.ob("set_mode|write#%d" % n, False, "set_mode: `%s` removes fields from the installed subset" % render(x)[:90], fn=f, site=x.get("sp"))
+        elif is_call(x) and path_ends(callee(x) or "", "mem::replace") and call_args(x) and is_old(peel(call_args(x)[0]).get("e") or {}):
+            n += 1
+            ok = _widens(call_args(x)[1], is_old)
+            ctx.ob("set_mode|write#%d" % n, ok, "set_mode: `%s` — the installed value %s a union with the previous subset" % (render(x)[:110], "is" if ok else "is NOT"), fn=f, site=x.get("sp"))
+    ctx.ob("set_mode|writes", n >= 1, "%d write(s) of the subset in set_mode (floor 1)" % n, fn=f, nontrivial=False)
+    ctx.floor(2)
